@@ -45,3 +45,17 @@ Fixpoint bare_item (i : item) : str :=
   end.
 Definition bare (v : value) : str := flat_map bare_item v.
 End E.
+
+(* everything that is not inside a closed node: text, and the markers / separators / children of open nodes
+   ('==' of a heading, the brackets and the space of a link) *)
+Fixpoint exposed_item (i : item) : str :=
+  match i with
+  | IText s => s
+  | IClosed _ => []
+  | IOpen pre ch => pre ++ flat_map (fun p => flat_map exposed_item (fst p) ++ snd p) ch
+  end.
+Definition exposed (v : value) : str := flat_map exposed_item v.
+
+(* Template._has_unescapable_equals: a heading or an external link among the value's own nodes renders the character *)
+Definition open_renders (c : cp) (v : value) : bool :=
+  existsb (fun i => match i with IOpen _ _ => existsb (N.eqb c) (str_item i) | _ => false end) v.
